@@ -28,6 +28,8 @@ mod generator;
 mod mirtie;
 #[path = "../c01/t5corpus.rs"]
 mod t5corpus;
+#[path = "../c01/lirtie.rs"]
+mod lirtie;
 
 use ast::*;
 use roto::verif_hooks::core::lower_to_mir;
@@ -450,6 +452,8 @@ fn check_generated(rep: &mut Report, drv: &mut Driver, g: &generator::Generated,
         // IR-level tie: the model's structured MIR against the real MIR of every function
         let names: Vec<String> = g.prog.fns.iter().map(|f| f.name.clone()).collect();
         let same = mirtie::compare_mir(rep, drv, &src, &sx, &names, &ident);
+        // LIR layer: the Lean model of lir/lower.rs on the real MIR against the real LIR
+        lirtie::compare_lir(rep, drv, &src, &ident);
         if same == names.len() as u64 && any_ok {
             let sig: Vec<&str> = cons.keys().map(|s| s.as_str()).collect();
             rep.class(format!("t5:{}|{}->{}", sig.join(","), g.arg_ty.name(), g.ret.name()));
@@ -548,6 +552,7 @@ fn check_representative(rep: &mut Report, drv: &mut Driver, name: &str, prog: &P
         let names: Vec<String> = prog.fns.iter().map(|f| f.name.clone()).collect();
         ok = mirtie::compare_mir(rep, drv, &src, &sx, &names, &ident) == names.len() as u64;
     }
+    if lirtie::compare_lir(rep, drv, &src, &ident) != prog.fns.len() as u64 { ok = false; }
     if ok && spec.iter().any(|s| s.starts_with("ok")) { rep.class(format!("t5corpus:{name}")); }
     rep.hist("t5-class-representatives", if ok { "agree" } else { "DIFFERENT" });
 }
@@ -800,6 +805,25 @@ fn main() {
                     rep.violation("process died or hung while compiling or running the replayed program", "control-flow crash", v.clone());
                 }
             }
+        }
+        Some("stages") => {
+            // print every function of program `index` of run `seed` as MIR and as LIR (hook stage_pairs)
+            let seed: u64 = args[2].parse().unwrap();
+            let idx: u64 = args[3].parse().unwrap();
+            let (g, _) = generate(seed, idx);
+            let src = source(&g.prog);
+            println!("{src}");
+            let rt: &'static Runtime<roto::NoCtx> = Box::leak(Box::new(Runtime::new()));
+            match roto::verif_hooks::c01::stage_pairs(FileTree::test_file("c01.roto", &src, 0), rt) {
+                Ok(ps) => for p in ps {
+                    println!("== {} tmp_idx={} returns_value={}", p.name, p.mir_tmp_idx, p.lir_returns_value);
+                    println!("vars: {}", p.lir_vars.iter().map(|(v, t)| format!("{v}:{t}")).collect::<Vec<_>>().join(" "));
+                    for (l, ins) in &p.mir { println!("  M{l}: {}", ins.join(" ; ")); }
+                    for (l, ins) in &p.lir { println!("  L{l}: {}", ins.join(" ; ")); }
+                },
+                Err(e) => println!("error: {e}"),
+            }
+            return;
         }
         Some("show") => {
             let seed: u64 = args[2].parse().unwrap();
